@@ -3,3 +3,5 @@ import IppModel.Props.C01
 #print axioms Ipp.Props.C01.listing_refl
 #print axioms Ipp.Props.C01.roundtrip_canonical
 #print axioms Ipp.Props.C01.singleton_set
+#print axioms Ipp.Props.C01.roundtrip_any
+#print axioms Ipp.Props.C01.opFirst_id_of_wf
